@@ -197,7 +197,7 @@ structure CoreInv (n : Nat) (adj : Nat → Nat → Bool) (s : CoreState) : Prop 
 
 theorem coreStep_inv (n : Nat) (adj : Nat → Nat → Bool) (hsym : ∀ a b, adj a b = adj b a)
     (indptr indices : List Nat)
-    (hrow : ∀ v, v < n → Dag.row ⟨indptr, indices⟩ v = nbrs n adj v)
+    (hrow : ∀ v, v < n → (Dag.row ⟨indptr, indices⟩ v).Perm (nbrs n adj v))
     (s : CoreState) (inv : CoreInv n adj s) (hpos : 0 < s.heap.size) :
     CoreInv n adj (coreStep indptr indices s) ∧ (coreStep indptr indices s).heap.size = s.heap.size - 1 := by
   rw [coreStep_eq]
@@ -205,12 +205,14 @@ theorem coreStep_inv (n : Nat) (adj : Nat → Nat → Bool) (hsym : ∀ a b, adj
   generalize hr : (s.heap.popMin s.degrees).1 = r at hrlive hlive1 hmin
   generalize hh1 : (s.heap.popMin s.degrees).2 = h1 at hinv1 hsize1 hlive1
   have hrn : r < n := live_lt inv.hinv hrlive
-  rw [relaxNeighbors_eq, hrow r hrn]
-  have hnbnd : (nbrs n adj r).Nodup := List.Pairwise.filter _ List.nodup_range
-  have hnblt : ∀ j ∈ nbrs n adj r, j < n := fun j hj => List.mem_range.1 (List.mem_filter.1 hj).1
+  rw [relaxNeighbors_eq]
+  have hperm := hrow r hrn
+  generalize Dag.row ⟨indptr, indices⟩ r = row at hperm
+  have hnbnd : row.Nodup := hperm.nodup_iff.2 (List.Pairwise.filter _ List.nodup_range)
+  have hnblt : ∀ j ∈ row, j < n := fun j hj => List.mem_range.1 (List.mem_filter.1 (hperm.mem_iff.1 hj)).1
   obtain ⟨hinv2, hlen2, hsize2, hlive2, hdeg2⟩ :=
-    relax_fold n (nbrs n adj r) hnbnd hnblt h1 s.degrees hinv1 inv.dlen
-  generalize ((nbrs n adj r).foldl relaxBody (h1, s.degrees)) = res at hinv2 hlen2 hsize2 hlive2 hdeg2
+    relax_fold n row hnbnd hnblt h1 s.degrees hinv1 inv.dlen
+  generalize (row.foldl relaxBody (h1, s.degrees)) = res at hinv2 hlen2 hsize2 hlive2 hdeg2
   -- the new live set
   have hlive : ∀ v, res.1.live v ↔ (s.heap.live v ∧ v ≠ r) := fun v => (hlive2 v).trans (hlive1 v)
   have hdr : s.degrees.getD r 0 = (degIn n adj (liveB s.heap) r : Int) := inv.degs r hrlive
@@ -226,7 +228,8 @@ theorem coreStep_inv (n : Nat) (adj : Nat → Nat → Bool) (hsym : ∀ a b, adj
       (fun u _ => by
         rw [Bool.eq_iff_iff, liveB_iff, Bool.and_eq_true, liveB_iff, bne_iff_ne]
         exact hlive u)
-    have hmem : v ∈ nbrs n adj r ↔ adj v r = true := by
+    have hmem : v ∈ row ↔ adj v r = true := by
+      rw [hperm.mem_iff]
       unfold nbrs
       rw [List.mem_filter, List.mem_range, hsym r v]
       exact ⟨fun h => h.2, fun h => ⟨hvn, h⟩⟩
@@ -315,7 +318,7 @@ namespace SkNet.Topology
 /-! ### the loop, the initial state, the result -/
 
 theorem coreLoop_spec (n : Nat) (adj : Nat → Nat → Bool) (hsym : ∀ a b, adj a b = adj b a)
-    (indptr indices : List Nat) (hrow : ∀ v, v < n → Dag.row ⟨indptr, indices⟩ v = nbrs n adj v) :
+    (indptr indices : List Nat) (hrow : ∀ v, v < n → (Dag.row ⟨indptr, indices⟩ v).Perm (nbrs n adj v)) :
     ∀ (fuel : Nat) (s : CoreState), CoreInv n adj s → s.heap.size ≤ fuel →
       ∃ s', coreLoop indptr indices fuel s = some s' ∧ CoreInv n adj s' ∧ s'.heap.size = 0 := by
   intro fuel
@@ -384,18 +387,40 @@ theorem csrOfEdge_degree (n : Nat) (adj : Nat → Nat → Bool) (v : Nat) (hv : 
   push_cast
   omega
 
+/-- a CSR structure (rows in any order) of the graph `adj` on `n` nodes -/
+structure IsCsrOf (n : Nat) (adj : Nat → Nat → Bool) (indptr indices : List Nat) : Prop where
+  len : indptr.length = n + 1
+  mono : ∀ v, v < n → indptr.getD v 0 ≤ indptr.getD (v+1) 0
+  row : ∀ v, v < n → (Dag.row ⟨indptr, indices⟩ v).Perm (nbrs n adj v)
+
+theorem csrOfEdge_isCsrOf (n : Nat) (adj : Nat → Nat → Bool) :
+    IsCsrOf n adj (csrOfEdge n adj).indptr (csrOfEdge n adj).indices := by
+  refine ⟨?_, ?_, fun v hv => by rw [csrOfEdge_row n adj v hv]⟩
+  · have := csrOfEdge_nodes n adj
+    have hl : (csrOfEdge n adj).indptr.length = (tab n fun i => (List.range n).filter (adj i)).length + 1 :=
+      indptrOf_length _
+    rw [tab_length] at hl; exact hl
+  · intro v hv
+    have := csrOfEdge_degree n adj v hv
+    omega
+
 /-- the state before the loop satisfies the invariant -/
-theorem coreInit_inv (n : Nat) (adj : Nat → Nat → Bool) :
-    CoreInv n adj (coreInit (csrOfEdge n adj).indptr) ∧ (coreInit (csrOfEdge n adj).indptr).heap.size = n := by
+theorem coreInit_inv (n : Nat) (adj : Nat → Nat → Bool) (indptr indices : List Nat)
+    (hcsr : IsCsrOf n adj indptr indices) :
+    CoreInv n adj (coreInit indptr) ∧ (coreInit indptr).heap.size = n := by
   unfold coreInit
-  rw [csrOfEdge_nodes]
+  have hn : indptr.length - 1 = n := by rw [hcsr.len]; omega
+  rw [hn]
   simp only
-  generalize hd : (tab n fun i => ((csrOfEdge n adj).indptr.getD (i+1) 0 : Int) -
-    ((csrOfEdge n adj).indptr.getD i 0 : Int)) = degrees
+  generalize hd : (tab n fun i => (indptr.getD (i+1) 0 : Int) - (indptr.getD i 0 : Int)) = degrees
   have hdv : ∀ v, v < n → degrees.getD v 0 = ((nbrs n adj v).length : Int) := by
     intro v hv
-    rw [← hd, tab_getD, if_pos hv]
-    exact csrOfEdge_degree n adj v hv
+    rw [← hd, tab_getD, if_pos hv, ← (hcsr.row v hv).length_eq]
+    unfold Dag.row
+    rw [sliceOf, List.length_map, rangeFrom_length]
+    have := hcsr.mono v hv
+    simp only
+    omega
   obtain ⟨h1, h2, h3⟩ := insert_fold n degrees n (Nat.le_refl _)
   generalize (List.range n).foldl (fun h i => h.insertKey i degrees) (Heap.empty n) = heap at h1 h2 h3
   have hfull : ∀ u, u < n → liveB heap u = true := fun u hu => (liveB_iff _ _).2 ((h3 u).2 hu)
@@ -412,21 +437,27 @@ theorem coreInit_inv (n : Nat) (adj : Nat → Nat → Bool) :
   · intro v hv hnl
     exact absurd ((h3 v).2 hv) hnl
 
-/-- ★ `core_exact`: on the CSR structure of an undirected graph `compute_core` terminates within its fuel and
-    labels every node with its core number -/
-theorem computeCore_spec (n : Nat) (adj : Nat → Nat → Bool) (hsym : ∀ a b, adj a b = adj b a) :
-    ∃ labels : List Int, computeCore (csrOfEdge n adj).indptr (csrOfEdge n adj).indices = some labels ∧
-      labels.length = n ∧
+/-- ★ `core_exact`: on every CSR structure (rows in any order) of an undirected graph `compute_core` terminates
+    within its fuel and labels every node with its core number -/
+theorem computeCore_spec_csr (n : Nat) (adj : Nat → Nat → Bool) (hsym : ∀ a b, adj a b = adj b a)
+    (indptr indices : List Nat) (hcsr : IsCsrOf n adj indptr indices) :
+    ∃ labels : List Int, computeCore indptr indices = some labels ∧ labels.length = n ∧
       ∀ v, v < n → ∃ c : Nat, labels.getD v 0 = (c : Int) ∧ IsCoreNumber n adj v c := by
-  obtain ⟨inv0, hsz⟩ := coreInit_inv n adj
-  obtain ⟨s', h1, h2, h3⟩ := coreLoop_spec n adj hsym (csrOfEdge n adj).indptr (csrOfEdge n adj).indices
-    (fun v hv => csrOfEdge_row n adj v hv) n _ inv0 (by omega)
+  obtain ⟨inv0, hsz⟩ := coreInit_inv n adj indptr indices hcsr
+  obtain ⟨s', h1, h2, h3⟩ := coreLoop_spec n adj hsym indptr indices hcsr.row n _ inv0 (by omega)
   refine ⟨s'.labels, ?_, h2.llen, ?_⟩
   · unfold computeCore
-    rw [csrOfEdge_nodes, h1]; rfl
+    have hn : indptr.length - 1 = n := by rw [hcsr.len]; omega
+    rw [hn, h1]; rfl
   · intro v hv
     apply h2.done v hv
     rintro ⟨i, hi, _⟩
     omega
+
+theorem computeCore_spec (n : Nat) (adj : Nat → Nat → Bool) (hsym : ∀ a b, adj a b = adj b a) :
+    ∃ labels : List Int, computeCore (csrOfEdge n adj).indptr (csrOfEdge n adj).indices = some labels ∧
+      labels.length = n ∧
+      ∀ v, v < n → ∃ c : Nat, labels.getD v 0 = (c : Int) ∧ IsCoreNumber n adj v c :=
+  computeCore_spec_csr n adj hsym _ _ (csrOfEdge_isCsrOf n adj)
 
 end SkNet.Topology
